@@ -117,6 +117,8 @@ def r_heads(prog, tier):
         why = 'not recognised as a child position'
         if s == 'len(%s)' % clab or s == 'len(%s) + 1' % clab:
             ok, why = False, 'one past the last child: no child gets the head mark'
+        elif isinstance(v, ast.UnaryOp) and isinstance(v.op, ast.USub) and isinstance(v.operand, ast.Constant):
+            ok, why = False, 'a negative position: the marker compares positions with `==`, so no child gets the head mark'
         elif s == '0':
             ok, why = True, 'first child'
         elif s == 'len(%s) - 1' % clab:
@@ -225,6 +227,18 @@ def r_heads(prog, tier):
                      for m in heads):
                 verdict, why = False, 'the head flag is decided per child from its own edge label: several children (or none) ' \
                                       'can be marked'
+        if verdict is True and cl:
+            # the marking must reach every constituent: a lower bound on the number of children above 1 skips unary nodes
+            marks = [m for m in gc.eval_nodes() if m.kind == 'stmt' and isinstance(m.ast, ast.Assign)
+                     and unparse(m.ast.targets[0]).endswith(".data['head']") and L.id in m.loops]
+            for m in marks:
+                for fa in [x[0] for x in facts_at(gc, m.id)]:
+                    if fa[0] == 'cmp' and fa[3] in ('len(%s)' % cl, 'len(trees.children(%s))' % sv) and fa[1].isdigit():
+                        low = int(fa[1]) + (1 if fa[2] == '<' else 0)
+                        if fa[2] in ('<', '<=') and low >= 2:
+                            verdict = False
+                            why = 'head flags are written only for constituents with at least %d children: an only child ' \
+                                  'gets no head flag at all' % low
         obs.append(Ob('R-HEADS/MARK', g.fq, 'exactly one child of every constituent is marked head, all others non-head', verdict,
                       why, construct='mark-one', line=g.node.lineno))
     # negra heuristic: leftmost HD, else rightmost NK, else leftmost
@@ -307,7 +321,20 @@ def r_heads(prog, tier):
                       for (_, v) in name_defs(g, n.args[2].id)) for n in walk_own(g.node))
     lab_ok = sum(1 for n in walk_own(g.node) if isinstance(n, ast.Attribute) and n.attr == 'label'
                  and isinstance(n.value, ast.Call) and prog.callee(n.value, g) == ('trees', 'parse_label')) >= 2
-    obs.append(Ob('R-HEADS/PRESET', g.fq, 'parent and child categories are handed to the rules without decorations', True if (call_ok and lab_ok) else None,
+    raw_label = None
+    for n in walk_own(g.node):
+        if isinstance(n, ast.Call) and prog.callee(n, g) == ('transformconst', 'get_headpos_by_rule') and n.args:
+            a0 = n.args[0]
+            src = a0
+            if isinstance(a0, ast.Name):
+                dd = [v for (_, v) in name_defs(g, a0.id) if isinstance(v, ast.AST)]
+                src = dd[0] if len(dd) == 1 else a0
+            if isinstance(src, ast.Subscript) and unparse(src).endswith(".data['label']"):
+                raw_label = unparse(src)
+    obs.append(Ob('R-HEADS/PRESET', g.fq, 'parent and child categories are handed to the rules without decorations',
+                  False if raw_label else (True if (call_ok and lab_ok) else None),
+                  ('the parent category is handed over as the raw node label `%s`: a function tag, index or head mark on it '
+                   'makes the rule lookup fail' % raw_label) if raw_label else
                   'parse_label(...).label for parent and children' if call_ok and lab_ok else 'labels not undecorated',
                   construct='preset-labels', line=g.node.lineno, nontrivial=False))
     return obs, {}
